@@ -132,6 +132,20 @@ class Impl:
       text = json.dumps(rec)
     except TypeError as e:
       return "not-json:%s" % e, False, False
+    # the returned recipe is owned by the caller: editing it must not change what the store exports next (and saves)
+    for e in rec:
+      if isinstance(e.get("op_config"), dict):
+        for k in list(e["op_config"]):
+          if isinstance(e["op_config"][k], dict):
+            e["op_config"][k]["num_bits"] = 3
+        e["op_config"]["compute_precision"] = "EDITED"
+      e["regex"] = "edited"
+    try:
+      again = json.dumps(rm.get_quantization_recipe())
+    except TypeError:
+      again = None
+    if again != text:
+      return "export-aliased", False, False
     rm2 = self.fresh()
     try:
       rm2.load_quantization_recipe(json.loads(text))
@@ -141,7 +155,7 @@ class Impl:
       return "refused", False, False
     except Exception as e:  # pylint: disable=broad-except
       return "exc:%s" % type(e).__name__, False, False
-    return "ok", rm2.get_quantization_recipe() == rec, self.resolve(rm2) == self.resolve(rm)
+    return "ok", json.loads(json.dumps(rm2.get_quantization_recipe())) == json.loads(text), self.resolve(rm2) == self.resolve(rm)
 
 
 def parse_trans(r):
